@@ -105,9 +105,14 @@ def make_model(rng, big=False):
             pairs_ = list(zip(used, perm))
             rng.shuffle(pairs_)
             if rng.random() < 0.5:
-                M.set_mapping(dict(pairs_))
+                given_ = dict(pairs_)
+                M.set_mapping(given_)
             else:
-                M.set_reverse_mapping({i: v for v, i in pairs_})
+                given_ = {i: v for v, i in pairs_}
+                M.set_reverse_mapping(given_)
+            if rng.random() < 0.5:
+                given_.clear()              # the caller re-uses its dict (to enumerate another model, say)
+                given_["__next_model__"] = 0
             preset = True
     earlier_life = False
     if not preset and not big and rng.random() < 0.12:
@@ -167,7 +172,14 @@ def make_model(rng, big=False):
         vs = list(M.mapping)
         perm = list(range(len(vs)))
         rng.shuffle(perm)
-        M.set_mapping({v: perm[i] for i, v in enumerate(vs)})
+        if rng.random() < 0.5:
+            given_ = {v: perm[i] for i, v in enumerate(vs)}
+            M.set_mapping(given_)
+        else:
+            given_ = {perm[i]: v for i, v in enumerate(vs)}
+            M.set_reverse_mapping(given_)
+        if rng.random() < 0.5:
+            given_.clear()                  # the caller re-uses its dict afterwards
         permuted = True
     make_model.last_ctype = ctype
     return cname, M, permuted
